@@ -13,7 +13,10 @@ from twisted.conch.ssh import channel, common, connection
 from twisted.logger import Logger
 
 HEADLINE = ("TwistedProps.C36.sent_never_exceeds_window_or_maxpacket / each_stream_complete_in_order_given_window / "
-            "close_after_all_buffered_sent / conforming_peer_never_refused / receiver_window_replenished")
+            "close_after_all_buffered_sent / conforming_peer_never_refused / receiver_window_replenished / "
+            "delivered_is_in_order_prefix_of_written / delivered_in_flight_buffered_is_written / "
+            "delivered_in_flight_buffered_is_written_before_close / closed_and_drained_everything_written_before_close_was_received / "
+            "quiescent_everything_written_was_received / nothing_follows_close_no_packet_for_removed_channel")
 RULE = ("histories of 1..40 ops over a connected channel pair: local windows from {1,2,3,4,5,6,8,13,32,100} and max packets "
         "from {1,2,3,4,5,8,40} per side; ops = write / writeExtended (types 1,2,7; 0..20 bytes of a per-side running counter) / "
         "loseConnection / deliver-oldest (either direction) / drain-to-quiescence; a third of the cases also hand in packets "
@@ -26,6 +29,10 @@ ASSUMES = [
     "startWriting/stopWriting/dataReceived/extReceived/closed are the default hooks (they do not write re-entrantly)",
     "incoming DATA/EXTENDED_DATA packets are well formed (declared string length = actual length)",
     "one channel per connection in the tie (channels share no flow-control state in the code)",
+    "end-to-end theorems: bytes written after the side's own CLOSE was sent are dropped by the code (conn.sendData is a no-op once "
+    "localClosed); the exact-accounting statements therefore count the bytes written before that CLOSE (wroteOpen, the same "
+    "convention as the oracle's `written`); the prefix statement holds against all bytes written",
+    "end-to-end theorems are for conforming histories (no packet handed in out of band); quiescence needs local windows >= 1",
 ]
 TRUSTED = [
     "the fake transport (sendPacket appends (type, payload) to a list) and struct/common.NS packet decoding in this file",
@@ -38,9 +45,16 @@ MANIFEST = {
             "remoteMaxPacket long; the packets of each stream concatenated, plus what is still buffered, are exactly what was written, "
             "and an adjust covering the buffered bytes empties the buffers; a close not caused by a refusal is the last packet and is "
             "sent only when every stream has been sent completely; over a FIFO pair no conforming history is ever refused and the "
-            "receiver's window never stays at zero.  The model is tied to the real classes by differential runs of whole histories.",
+            "receiver's window never stays at zero.  End to end over the FIFO pair (any windows, max packets >= 1, any application "
+            "calls on both sides, any delivery order): a queued CLOSE is the last packet of its queue, no packet ever reaches a "
+            "removed channel (no KeyError); per stream and direction the bytes handed to dataReceived/extReceived are an in-order "
+            "prefix of the bytes written; delivered ++ in flight ++ (buffered, if the sender has not closed) = the bytes written before "
+            "the sender's CLOSE, exactly, at every moment (so once a closed side's queue has drained its peer has received all of them); and "
+            "with windows >= 1, whenever both queues are empty and neither side is closing, every stream has been received completely "
+            "and all buffers are empty.  The model is tied to the real classes by differential runs of whole histories.",
     "note": "trusts Lean kernel, the hand-written model (differentially tied), the fake transport; FIFO loss-free packet queue assumed",
-    "technique": "Lean 4 proof (step invariants + induction over histories, pair invariant) + differential tie",
+    "technique": "Lean 4 proof (step invariants + induction over histories, pair invariant: exact credit conservation, "
+                 "nothing follows CLOSE, per-stream delivered/in-flight/buffered accounting) + differential tie",
     "design_ref": "DESIGN.md §7 C36",
 }
 
